@@ -140,6 +140,15 @@ func Enc(o *py.Object) string {
 		return s + "]"
 	case "NoneType":
 		return "N"
+	case "function", "builtin_function_or_method":
+		// a function object: defining module and name (pylib/vmod.py's enc() additionally checks the identity)
+		m := o.GetAttrString(c.Str("__module__"))
+		n := o.GetAttrString(c.Str("__name__"))
+		if m == nil || n == nil {
+			pyx.ErrClear()
+			return "?" + TypeName(o)
+		}
+		return "c" + HexString(Str(m)+"."+Str(n))
 	}
 	return "?" + TypeName(o)
 }
